@@ -399,6 +399,70 @@ def replay(prop: str, path: str):
     return doc["signature"] in sigs, doc["signature"], sigs
 
 
+# ------------------------------------------------------- single-fault sweeps
+def sweep_plan(seed: int):
+    """A small multi-file build: CLI to C (two output files), Python and Go."""
+    from .prng import Rng
+
+    rng = Rng(seed, "sweep")
+    proj = gen_compiler.generated_project(rng.sub("p"), "pa") if rng.chance(0.6) else gen_compiler.corpus_project(rng.sub("p"), "pa")
+    img = {"dirs": ["/w"], "files": {}, "symlinks": {}, "hardlinks": {}, "cwd": "/w/pa"}
+    gen_compiler.project_fs(proj, img)
+    main = proj.main
+    ops = [
+        {"op": "cli", "argv": ["c", main, "out", "-q"], "outdir_abs": "/w/pa/out"},
+        {"op": "cli", "argv": ["py", "/w/pa/" + main, "/w/pa/out"], "outdir_abs": "/w/pa/out"},
+        {"op": "parse", "sid": 0, "path": "./" + main, "trad": False},
+        {"op": "render", "sid": 0, "lang": "go", "outdir": "out", "outdir_abs": "/w/pa/out", "opt": False, "filter": None, "endian": "both"},
+        {"op": "cli", "argv": ["c", main, "out"], "outdir_abs": "/w/pa/out"},
+    ]
+    return {"world": "compiler", "mode": "c09", "seed": seed, "hashseed": seed % 1000003 + 1, "knob_cache": True, "fs": img, "ops": ops, "faults": []}
+
+
+def single_fault_sweep(prop: str, seeds, jobs: int):
+    """Every file-system call of every operation of a build x every applicable fault kind
+    (one fault per execution). An aid to placement next to the seeded search."""
+    from .simfs import FAULTS_BY_CALL
+
+    jobs_list = []
+    bases = []
+    for seed in seeds:
+        plan0 = sweep_plan(seed)
+        r0 = runner.run_plan(plan0)
+        if r0["status"] != "ok":
+            continue
+        res0 = r0["result"]
+        bases.append((plan0, res0))
+        for rec in res0["history"]:
+            for n, sk in enumerate(rec.get("seams") or [], start=1):
+                kinds = [{"kind": k} for k in FAULTS_BY_CALL.get(sk, [])] + [{"kind": "crash", "power": False}, {"kind": "crash", "power": True, "tear": 0x6C}]
+                for f in kinds:
+                    f = dict(f, op=rec["i"], call=n)
+                    if sk == "write":
+                        f["frac"] = 0.5
+                    jobs_list.append((len(bases) - 1, f))
+
+    def run_one(job):
+        bi, f = job
+        plan0, res0 = bases[bi]
+        p1 = dict(plan0)
+        p1["faults"] = [f]
+        r = runner.run_plan(p1)
+        if r["status"] != "ok":
+            return [{"sig": "process-%s" % r["status"], "op_index": f["op"], "op": "?", "outcome": "", "plan": p1, "phase": "sweep"}], 0
+        vs = oracles.c09_violations(p1, r["result"]) + oracles.c09_silent_failures(res0, r["result"])
+        fired = sum(len(rec.get("fired") or []) for rec in r["result"]["history"])
+        for v in vs:
+            v["plan"] = p1
+            v["phase"] = "sweep"
+        return vs, fired
+
+    out = runner.pmap(run_one, jobs_list, jobs)
+    violations = [v for vs, _ in out for v in vs]
+    fired = sum(n for _, n in out)
+    return {"base_plans": len(bases), "single_fault_executions": len(jobs_list), "faults_fired": fired}, violations
+
+
 # ------------------------------------------------------------------ plumbing
 def new_context(prop: str, tier: str = "quick"):
     g = Goldens()
@@ -623,6 +687,15 @@ def selftest(prop: str, tier: str, seeds, jobs: int) -> dict:
     n = simfs_fidelity()
     m = simfs_fidelity2()
     return {"simfs_fidelity_cases": n + m}
+
+
+def extra_phase(prop: str, tier: str, seeds, jobs: int):
+    """C09: single-fault sweeps over a few builds (quick: 3, thorough: 60)."""
+    if prop != "C09":
+        return {}, []
+    k = 1 if tier == "quick" else 40
+    info, violations = single_fault_sweep(prop, seeds[:k], jobs)
+    return {"single_fault_sweeps": info}, violations
 
 
 def evidence(prop, tier, base_seed, done, selftest_info, wall, t_runs, nviol, known_sigs, jobs):
